@@ -179,7 +179,7 @@ def oracle(sheet, depth_limit=50):
                 if c.parentRule is not p:
                     what = "parentRule of a nested rule is not the rule containing it"
                 elif c.parentStyleSheet is not top:
-                    what = "parentStyleSheet of a rule nested %d deep is not the sheet" % depth
+                    what = "parentStyleSheet of a nested rule is not the sheet that contains it"
                 elif c.parent is not p:
                     what = "parent of a nested rule is not the rule containing it"
             elif r in (RSTYLE, RSELLIST, RMEDIA):
@@ -192,7 +192,7 @@ def oracle(sheet, depth_limit=50):
                 if c.parent is not p:
                     what = "parent of %s is not the %s containing it" % (describe(c), describe(p))
             if what:
-                bad.append((what, "%s in %s via %s" % (describe(c), describe(p), ROLE_NAMES[r])))
+                bad.append((what, "%s in %s via %s at depth %d" % (describe(c), describe(p), ROLE_NAMES[r], depth)))
             if r == RIMPORTED:
                 visit(c, c, 0)
             elif r in (RTOP, RSUB):
@@ -227,6 +227,7 @@ class World:
         self.lines, self.expected = ["reset"], []
         self.pool = []
         self.viol = []      # (step, description, sig)
+        self.dump_step, self.step = [], -1
         self.notes = []
         self.sheet = self.parser.parseString(text)
         self.sync(None)
@@ -238,11 +239,11 @@ class World:
             return -1
         return self.reg.get(id(o), -9)
 
-    def register(self, o):
+    def register(self, o, pr=-1, pss=-1):
         if id(o) not in self.reg:
             self.reg[id(o)] = len(self.objs)
             self.objs.append(o)
-            self.lines.append("alloc %d -1 -1 -1 -1" % K[kind_of(o)])
+            self.lines.append("alloc %d %d %d -1 -1" % (K[kind_of(o)], pr, pss))
 
     def sync(self, deleted_from):
         """translate what the last API call did to containment into model steps (generic: elements that left a
@@ -265,8 +266,12 @@ class World:
                 newr = [c for rr, c in new if rr == r]
                 for i in range(len(oldr) - 1, -1, -1):
                     if (r, oldr[i]) not in newset:
-                        if deleted_from is not None and deleted_from == m and r in (RTOP, RSUB):
-                            self.lines.append("detach %d %d %d" % (0 if r == RTOP else 1, m, i))
+                        if r == RSUB:
+                            # deleteRule and the cssRules setter of a container rule (hence the cssText setters
+                            # of @media / @page) detach the rules that leave the list
+                            self.lines.append("detach 1 %d %d" % (m, i))
+                        elif deleted_from is not None and deleted_from == m and r == RTOP:
+                            self.lines.append("detach 0 %d %d" % (m, i))
                         else:
                             self.lines.append("drop %d %d %d" % (r, m, i))
                 kept = [c for c in oldr if (r, c) in newset]
@@ -284,13 +289,14 @@ class World:
         self.snap = now
         self.lines.append("dump")
         self.expected.append(self.snapshot())
+        self.dump_step.append(self.step)
 
     def snapshot(self):
         out = []
         for o in self.objs:
             k = kind_of(o)
             if k == 'rule':
-                f = [self.mid(o._parentRule), self.mid(o._parentStyleSheet), None, None,
+                f = [self.mid(o._parentRule), self.mid(o._parentStyleSheet), self.mid(o._parent), None,
                      self.mid(o.parent), self.mid(o.parentStyleSheet)]
             elif k in ('decl', 'sellist', 'medialist'):
                 f = [self.mid(o._parentRule), None, None, None, None, None]
@@ -327,10 +333,17 @@ class World:
         cand = [o for o in self.universe() if cat_of(o) in cats]
         return cand[n % len(cand)] if cand else None
 
-    def free(self, cats, n):
+    def free(self, cats, n, fresh=None):
+        """an object the user holds that is nobody's element; a new one (constructed standalone) when there is none"""
         cont = self.contained_ids()
         cand = [o for o in self.pool if cat_of(o) in cats and id(o) not in cont]
-        return cand[n % len(cand)] if cand else None
+        if cand and (fresh is None or n % 3):
+            return cand[n % len(cand)]
+        if fresh is None:
+            return None
+        o = make_new(fresh, n)
+        self.pool.append(o)
+        return o
 
 
 CONTAINER = ('sheet', 'media', 'page')
@@ -359,7 +372,7 @@ OPS = {
     'remove_property': (('decl',), lambda g: {'k': g.randrange(len(PROPS))}),
     'prop_value': (('prop',), lambda g: {'k': g.randrange(len(PROPS))}),
     'set_href': (('import',), lambda g: {'text': g.choice(['n.css', '', 'o.css'])}),
-    'new': (('sheet',), lambda g: {'what': g.choice(NEW_KINDS), 'k': g.randrange(6)}),
+    'new': (('sheet',), lambda g: {'what': g.choice(NEW_KINDS), 'k': g.randrange(6), 'ctor': g.choice([0, 0, 1, 2])}),
 }
 OPNAMES = sorted(OPS)
 
@@ -409,6 +422,12 @@ def apply_op(w, d, step):
     if t is None:
         return False
     deleted_from, deleted = None, None
+    added_obj = None
+    if name in ('set_csstext', 'set_cssrules') and cat_of(t) in CONTAINER:
+        # the user keeps references to rules that the assignment is going to drop (they are not detached by it)
+        for x in list(t.cssRules)[:2]:
+            if all(x is not y for y in w.pool):
+                w.pool.append(x)
     try:
         if name == 'insert_text':
             if d['idx'] is None:
@@ -417,13 +436,16 @@ def apply_op(w, d, step):
                 t.insertRule(d['text'], min(d['idx'], len(t.cssRules)))
         elif name == 'insert_obj':
             allowed = ('stylerule', 'media', 'page', 'fontface', 'rule', 'import') if cat_of(t) != 'page' else ('margin',)
-            src = w.free(allowed, d['src'])
+            src = w.free(allowed, d['src'], 'margin' if cat_of(t) == 'page' else ['stylerule', 'media', 'page', 'fontface', 'comment'][d['src'] % 5])
             if src is None or src is t or any(x is t for x in walk(src)):
                 return False
+            if isinstance(src, css.CSSNamespaceRule) or (isinstance(src, css.CSSCharsetRule) and d['idx'] is not None):
+                return False    # whether the post settings are reached depends on the hierarchy checks (C07), not modelled
             if d['idx'] is None:
                 t.add(src)
             else:
                 t.insertRule(src, min(d['idx'], len(t.cssRules)))
+            added_obj = src
         elif name == 'delete':
             if not len(t.cssRules):
                 return False
@@ -450,21 +472,21 @@ def apply_op(w, d, step):
         elif name == 'set_style_text':
             t.style = d['text']
         elif name == 'set_style_obj':
-            src = w.free(('decl',), d['src'])
+            src = w.free(('decl',), d['src'], 'decl')
             if src is None:
                 return False
             t.style = src
         elif name == 'set_selector_text':
             t.selectorText = d['text']
         elif name == 'set_sellist_obj':
-            src = w.free(('sellist',), d['src'])
+            src = w.free(('sellist',), d['src'], 'sellist')
             if src is None:
                 return False
             t.selectorList = src
         elif name == 'append_selector':
             t.appendSelector(d['text'])
         elif name == 'append_selector_obj':
-            src = w.free(('selector',), d['src'])
+            src = w.free(('selector',), d['src'], 'selector')
             if src is None:
                 return False
             t.appendSelector(src)
@@ -473,7 +495,7 @@ def apply_op(w, d, step):
         elif name == 'set_media_text':
             t.media = d['text']
         elif name == 'set_media_obj':
-            src = w.free(('medialist',), d['src'])
+            src = w.free(('medialist',), d['src'], 'medialist')
             if src is None:
                 return False
             t.media = src
@@ -488,7 +510,7 @@ def apply_op(w, d, step):
             n, v = PROPS[d['k'] % len(PROPS)]
             t.setProperty(n, v, replace=d['replace'])
         elif name == 'set_property_obj':
-            src = w.free(('prop',), d['src'])
+            src = w.free(('prop',), d['src'], 'prop')
             if src is None:
                 return False
             t.setProperty(src, replace=d['replace'])
@@ -499,9 +521,31 @@ def apply_op(w, d, step):
         elif name == 'set_href':
             t.href = d['text']
         elif name == 'new':
-            w.pool.append(make_new(d['what'], d['k']))
+            ctor = d.get('ctor', 0)
+            if ctor and d['what'] in ('stylerule', 'comment', 'fontface'):
+                # constructor arguments parentRule / parentStyleSheet: the caller's claim, stored as given
+                pr = w.select(('media', 'page'), d['k']) if ctor == 1 else None
+                pss = w.sheet if ctor == 2 else None
+                cls = {'stylerule': css.CSSStyleRule, 'comment': css.CSSComment, 'fontface': css.CSSFontFaceRule}[d['what']]
+                o = cls(parentRule=pr, parentStyleSheet=pss)
+                if d['what'] == 'stylerule':
+                    o.cssText = 'n{o:p}'
+                elif d['what'] == 'comment':
+                    o.cssText = '/*n*/'
+                w.register(o, w.mid(pr), w.mid(pss))
+                w.pool.append(o)
+            else:
+                w.pool.append(make_new(d['what'], d['k']))
     except Exception as e:  # the API reports rejected input by raising xml.dom exceptions (and a few others)
         w.notes.append("%s raised %s" % (name, type(e).__name__))
+    if added_obj is not None and cat_of(t) == 'sheet' and all(x is not added_obj for x in t.cssRules) and \
+            isinstance(added_obj, css.CSSCharsetRule):
+        # insertRule returned normally without inserting: an @charset merged into the existing one or a duplicate
+        # @namespace; the post settings (cssstylesheet.py) are still executed on the rule
+        w.register(added_obj)
+        w.lines.append("post %d %d" % (w.mid(t), w.mid(added_obj)))
+    if deleted is not None and any(x is deleted for x in t.cssRules):
+        deleted, deleted_from = None, None      # deleteRule refused (e.g. an @namespace that is in use)
     w.sync(deleted_from)
     if deleted is not None:
         r = oracle_deleted(deleted)
@@ -524,14 +568,19 @@ def execute(case):
     w = World(INITIAL[ti])
     applied = []
     for step, d in enumerate(ops):
+        w.step = step
         if apply_op(w, d, step):
             applied.append(d['op'])
     return {'lines': w.lines, 'expected': w.expected, 'viol': w.viol[:10], 'notes': w.notes[:5],
-            'applied': applied, 'nobj': len(w.objs)}
+            'applied': applied, 'nobj': len(w.objs), 'dump_step': w.dump_step}
 
 
-def fails_like(ti, what):
+def fails_like(ti, what, budget=25.0):
+    t0 = time.time()
+
     def f(ops):
+        if time.time() - t0 > budget:
+            return False
         r = execute((ti, list(ops)))
         return any(v[1] == what for v in r['viol'])
     return f
@@ -562,6 +611,8 @@ def small_alphabet():
     al.append({'op': 'set_property_obj', 't': 0, 'src': 0, 'replace': False})
     for what in ('stylerule', 'media', 'decl', 'prop', 'sellist', 'medialist', 'page'):
         al.append({'op': 'new', 't': 0, 'what': what, 'k': 1})
+    al.append({'op': 'new', 't': 0, 'what': 'stylerule', 'k': 0, 'ctor': 1})
+    al.append({'op': 'new', 't': 0, 'what': 'stylerule', 'k': 0, 'ctor': 2})
     return al
 
 
@@ -579,7 +630,7 @@ def gen_cases(ctx, thorough):
             cases.append((1, list(seq)))
     n_exh = len(cases)
     g = ctx.rng
-    nrand = 6000 if thorough else 700
+    nrand = 2000 if thorough else 500
     for i in range(nrand):
         ti = g.choice([0, 0, 0, 1, 4, 4, 2, 3])
         cases.append((ti, [gen_op(g) for _ in range(g.choice([15, 15, 25, 40] if thorough else [15, 15, 20]))]))
@@ -652,7 +703,7 @@ def run(ctx):
                 k += 1
                 checked += 1
                 if d and len(mism) < 5:
-                    mism.append({"initial": case[0], "ops": case[1][:step], "dump": step, "diff": d})
+                    mism.append({"initial": case[0], "ops": case[1][:r['dump_step'][step] + 1], "diff": d})
             if r['notes'] and any(n.startswith(("elements of", "no site")) for n in r['notes']) and len(mism) < 5:
                 mism.append({"initial": case[0], "ops": case[1], "diff": r['notes']})
         if mism:
